@@ -4,6 +4,7 @@ package cl
 
 import (
 	"math"
+	"math/big"
 	"math/cmplx"
 
 	"github.com/ohler55/slip"
@@ -47,6 +48,11 @@ type Expt struct {
 // Call the function with the arguments provided.
 func (f *Expt) Call(s *slip.Scope, args slip.List, depth int) (result slip.Object) {
 	slip.CheckArgCount(s, depth, f, args, 2, 2)
+	if pow, ok := args[1].(slip.Fixnum); ok {
+		if result = exptRational(args[0], int64(pow)); result != nil {
+			return
+		}
+	}
 	if base, ok := args[0].(slip.Fixnum); ok {
 		if pow, ok2 := args[1].(slip.Fixnum); ok2 {
 			x := math.Pow(float64(base), float64(pow))
@@ -79,4 +85,46 @@ func (f *Expt) Call(s *slip.Scope, args slip.List, depth int) (result slip.Objec
 		slip.TypePanic(s, depth, "base", base, "number")
 	}
 	return
+}
+
+// maxExptBits limits the size of an exact result of expt. Larger results are
+// left to the floating point calculation.
+const maxExptBits = 1 << 26
+
+// exptRational returns the exact value of a fixnum, bignum, or ratio raised to
+// an integer power. It returns nil if base is not a rational, if the result
+// would be larger than maxExptBits, or for an integer base and a negative
+// power which gives a float.
+func exptRational(base slip.Object, pow int64) slip.Object {
+	var rat big.Rat
+	switch tb := base.(type) {
+	case slip.Fixnum:
+		_ = rat.SetInt64(int64(tb))
+	case *slip.Bignum:
+		_ = rat.SetInt((*big.Int)(tb))
+	case *slip.Ratio:
+		_ = rat.Set((*big.Rat)(tb))
+	default:
+		return nil
+	}
+	bits := int64(max(rat.Num().BitLen(), rat.Denom().BitLen()))
+	if pow < 0 {
+		if rat.IsInt() || pow == math.MinInt64 {
+			return nil
+		}
+		_ = rat.Inv(&rat)
+		pow = -pow
+	}
+	if 1 < bits && maxExptBits/bits < pow {
+		return nil
+	}
+	var (
+		num big.Int
+		den big.Int
+	)
+	zp := big.NewInt(pow)
+	_ = num.Exp(rat.Num(), zp, nil)
+	_ = den.Exp(rat.Denom(), zp, nil)
+
+	return reduceRational(rat.SetFrac(&num, &den))
 }
